@@ -18,7 +18,7 @@ RULE = ('G-doc documents under the hostile text policy: every word is a sentinel
         'metadata value; valid UTF-8 without control characters; no raw HTML tags and no user-typed named entities (raw passthrough is outside the '
         'statement). Outputs: OPML, FODT, ITMZ mapdata.xml, every .xml member of ODT, and container.xml / main.opf / nav.xhtml / main.xhtml of EPUB, '
         'x {default, no notes/critic, smart off, compatibility}. Oracle: the member parses with expat, a non-validating XML parser; no element or attribute NAME contains a sentinel, and every name belongs to the vocabulary of the format (a payload that '
-        'closed its attribute or element would create foreign markup). Non-trivial: document with a hostile character in >=2 different slots, one of them an attribute slot; distinct by source.')
+        'closed its attribute or element would create foreign markup). A second case kind fills ONE slot (heading, metadata value, URL, alt text, note, caption, definition, label, citation locator, fence info, abbreviation) with 150..320 letters plus a tail character whose last byte is 0xA0 / 0x85; link and image attribute lists repeat a name or use one the writer prints itself; payloads include hexadecimal-reference look-alikes (&#xZZ;). Non-trivial: document with a hostile character in >=2 different slots, one of them an attribute slot; distinct by source.')
 ASSUMPTIONS = ['`<` is never followed by a letter, `/`, `!` or `?` (that would be user-written raw HTML), except for an unmatched comment opener `<!--`, which is text and `&` never starts a named entity',
                'expat (non-validating) is exactly "well-formed"; the escaped space `\\ ` (known finding: &nbsp; in EPUB XHTML) is never generated',
                'containment is judged on names: the generator writes no raw HTML, so an element/attribute outside the format vocabulary can only come from a payload that broke out']
